@@ -118,6 +118,11 @@ InsertComment == /\ Step("comment")
                  /\ \E i \in { k \in CardIdx : ~IsCont(lines, k) \/ TRUE } \cup {Len(lines) + 1} : \E lead \in { <<>>, <<"b">>, <<"b","b","b","b">> }, up \in BOOLEAN :
                       (* not right after the title-less start of a block is fine; never inside the message block *)
                       lines' = SubSeq(lines, 1, i - 1) \o <<CommentLine(lead, up)>> \o SubSeq(lines, i, Len(lines))
+(* a card may start anywhere in columns 1-5: up to four leading blanks do not make it a continuation *)
+IndentCard == /\ Step("cardindent")
+              /\ \E i \in CardIdx : \E lead \in { <<"b">>, <<"b","b","b">>, <<"b","b","b","b">> } :
+                   /\ ~IsCont(lines, i) /\ lines[i].lead = <<>>
+                   /\ lines' = [lines EXCEPT ![i].lead = lead]
 AddDollar == /\ Step("dollar")
              /\ \E i \in CardIdx : ~lines[i].dollar /\ lines' = [lines EXCEPT ![i].dollar = TRUE]
 MessageLine == [kind |-> "text", lead |-> <<>>, amp |-> FALSE, dollar |-> FALSE, upper |-> FALSE, frozen |-> TRUE,
@@ -168,7 +173,7 @@ ContractJ == /\ Step("jump")
 Emit == /\ depth >= 1 /\ last # "emitted"
         /\ PrintT(ToJson([lines |-> lines, depth |-> depth, last |-> last, spelled |-> ReadSpelled(lines)]))
         /\ last' = "emitted" /\ UNCHANGED <<lines, depth>>
-Rewrite == ChangeCase \/ WidenBlanks \/ SplitIndent \/ SplitAmp \/ InsertComment \/ AddDollar \/ AddMessage
+Rewrite == ChangeCase \/ WidenBlanks \/ SplitIndent \/ SplitAmp \/ InsertComment \/ IndentCard \/ AddDollar \/ AddMessage
            \/ Respell \/ Contract \/ ContractM \/ ContractI \/ ContractJ
 Next == (last # "emitted" /\ Rewrite) \/ Emit
 Spec == Init /\ [][Next]_vars
